@@ -3,6 +3,7 @@ from vcommon import *
 import scen_common
 
 PID = "C05"
+ECANCELED_NUM = 125   # Linux errno ECANCELED (Gen/Consts.v has the probed value; the driver prints the raw return value)
 PROP_V = ["Props/Properties_C05cv.v", "Props/Properties_C05mu.v"]
 GEN_MODULES = ["Consts", "Sites"]
 FLOW_FILES = ['cv.c', 'mu_wait.c', 'sem_wait.c']
@@ -30,7 +31,7 @@ def run(tier, seed):
         tie[k] = tie.get(k, 0) + tie2.get(k, 0)
     tie["model_sites_hit_cv"] = tie2.get("model_sites_hit", {})
     specs = [("cv_mix", {"VRT_MODE": 0}, 2000, 40000), ("cv_mix", {"VRT_MODE": 4}, 1500, 30000), ("muwait_mix", {"VRT_MODE": 0}, 2000, 40000),
-             ("muwait_mix", {"VRT_MODE": 1}, 1000, 20000), ("muwait_mix", {"VRT_MODE": 0, "VRT_FINE": 600}, 1500, 30000), ("cancel_mix", {}, 3000, 60000),
+             ("muwait_mix", {"VRT_MODE": 1}, 1000, 20000), ("muwait_mix", {"VRT_MODE": 0, "VRT_FINE": 600}, 1500, 30000), ("muwait_mix", {"VRT_MODE": 5}, 1000, 20000), ("cancel_mix", {}, 3000, 60000),
              # reader-mode / generic-lock timed and cancellable cv waits racing real wake-ups (MODE 6), untimed generic waits (MODE 5),
              # expiring notes that nobody notifies explicitly
              ("cv_mix", {"VRT_MODE": 6}, 2500, 50000), ("cv_mix", {"VRT_MODE": 6, "VRT_GENERIC": 1}, 800, 15000), ("cv_mix", {"VRT_MODE": 5}, 800, 15000),
@@ -40,6 +41,25 @@ def run(tier, seed):
                    "deadline for ETIMEDOUT, note state for ECANCELED, condition value for mu_wait; cancel_mix: notes fresh / already notified / "
                    "expiring / children of expiring parents, notified at every point of the wait, reader and writer mode: once the note is "
                    "notified the call must return without any further wake-up; non-trivial = runs with semaphore sleeps")
+    # real library, real futex: cv / mu waits (writer and reader mode) with a cancel note that NOBODY ever notifies and that has no expiry, over the
+    # boundary deadlines of C15's grid (zero, before the epoch, just past, now - d): ECANCELED is never a legal result there
+    import prop_C15, concurrent.futures as cf
+    exes, errs = prop_C15.build()
+    for k, e in errs.items():
+        res["broken"].append({"what": "library + deadline driver (%s build) does not compile" % k, "detail": e})
+    ncanc = 0
+    with cf.ThreadPoolExecutor(max_workers=NCPU) as ex:
+        futs = [ex.submit(prop_C15.run_case, exe, entry, d) for exe in exes.values() for entry in ("cvn", "mun", "rmun")
+                for d in prop_C15.deadlines(tier) if d[3] == "expired" or isinstance(d[3], tuple)]
+        for f in futs:
+            c = f.result()
+            ncanc += 1
+            m = re.search(r"ret=(-?\d+)", c["out"] or "")
+            if m and int(m.group(1)) == ECANCELED_NUM:
+                if not any(v.get("key") == "ecanceled-unnotified" for v in res["violations"]):
+                    res["violations"].append({"case": c, "key": "ecanceled-unnotified", "oracle": "C05",
+                                              "why": "%s with deadline %s returned ECANCELED although its cancel note was never notified and has no expiry" % (c["entry"], c["deadline"])})
+    cov["real_library_cancel_note_cases"] = ncanc
     cov.update(tie)
     res["coverage"] = cov
     return res
